@@ -24,13 +24,23 @@
 (* fewer entries than asked for: the rest of the range is asked again),     *)
 (* submitters take batches and call AddSequenced.  A failed pass unwinds:   *)
 (* calls already in flight may still land, nothing new is started.          *)
+(*                                                                         *)
+(* The extreme short read is the empty page: get-entries answered 200 with  *)
+(* zero entries.  The property only says that it must not cause a gap.      *)
+(* Named clause EmptyPageHandedOn (the migrator's definite behaviour): the  *)
+(* worker hands the empty batch on like any other and asks for the same     *)
+(* range again; named clause EmptyRequestRefused (the destination's, as     *)
+(* Trillian's validateAddSequencedLeavesRequest): an AddSequenced request   *)
+(* without leaves is answered InvalidArgument, which is fatal for the pass. *)
+(* So an empty page makes the pass fail loudly; what it must never do is    *)
+(* end the range (PosCovered, Complete).                                    *)
 (***************************************************************************)
 EXTENDS Naturals, Integers, Sequences, FiniteSets, TLC
 
 CONSTANTS
   MaxIdx,       \* indices are 0..MaxIdx-1
   FaultKinds,   \* which faults the oracle may inject:
-                \* "short" "fetchErr" "quota" "fatal" "rootErr" "sthErr" "consErr" "cancel" "revoke"
+                \* "short" "emptyPage" "fetchErr" "quota" "fatal" "rootErr" "sthErr" "consErr" "cancel" "revoke"
   KeepHist      \* TRUE: record the environment's choices (hist, pass, calls) for replay; FALSE: finite state space
 
 None == [k |-> "none"]
@@ -53,8 +63,9 @@ VARIABLES
   proved,     \* a valid consistency proof root -> sth was obtained in this pass
   gen,        \* range generator: next index to hand out
   out,        \* ranges [s, e] held by fetch workers
-  bag,        \* fetched batches [s, n] waiting for a submitter
-  hold,       \* batches held by submitters: [s, n, st], st = "try" (about to call) | "wait" (backing off)
+  bag,        \* fetched batches [s, n, u] waiting for a submitter (n = 0: an empty page handed on; u tells empty
+              \*   batches of the same range apart: 0 for n > 0, the fault budget at the time of the empty page otherwise)
+  hold,       \* batches held by submitters: [s, n, u, st], st = "try" (about to call) | "wait" (backing off)
   master, alive,
   faults,     \* remaining fault budget
   restarts,   \* remaining process restarts
@@ -160,9 +171,13 @@ Fetch(r) ==
      \/ \E k \in 1..asked :
           /\ (k < asked) => Has("short")
           /\ faults' = IF k < asked THEN faults - 1 ELSE faults
-          /\ bag' = bag \cup {[s |-> r.s, n |-> k]}
+          /\ bag' = bag \cup {[s |-> r.s, n |-> k, u |-> 0]}
           /\ out' = (out \ {r}) \cup (IF k < asked THEN {[s |-> r.s + k, e |-> r.e]} ELSE {})
           /\ Log([ev |-> "Fetch", pass |-> pass, start |-> r.s, end |-> r.e, n |-> k, code |-> "OK"])
+     \/ /\ Has("emptyPage") /\ faults' = faults - 1           \* 200 with zero entries: the batch is handed on all the
+        /\ bag' = bag \cup {[s |-> r.s, n |-> 0, u |-> faults]}  \* same (EmptyPageHandedOn); the range stays: asked again
+        /\ UNCHANGED out
+        /\ Log([ev |-> "Fetch", pass |-> pass, start |-> r.s, end |-> r.e, n |-> 0, code |-> "OK"])
      \/ /\ Has("fetchErr") /\ faults' = faults - 1            \* the worker asks again
         /\ UNCHANGED <<out, bag>>
         /\ Log([ev |-> "Fetch", pass |-> pass, start |-> r.s, end |-> r.e, n |-> 0, code |-> "ERR"])
@@ -172,7 +187,7 @@ Fetch(r) ==
 Take(b) ==
   /\ pc = "run" /\ b \in bag /\ Cardinality(hold) < cfg.submitters
   /\ bag' = bag \ {b}
-  /\ hold' = hold \cup {[s |-> b.s, n |-> b.n, st |-> "try"]}
+  /\ hold' = hold \cup {[s |-> b.s, n |-> b.n, u |-> b.u, st |-> "try"]}
   /\ UNCHANGED <<cfg, dest, out, envv, faults, restarts, verified, flags, pass, calls, hist, ctl>>
 
 \* leaves: what the request carries (BatchLeaves(h.s, h.n) for the migrator this specification describes;
@@ -182,6 +197,7 @@ Take(b) ==
 SubmitL(h, leaves, o) ==
   /\ pc = "run" /\ h \in hold /\ h.st = "try" /\ Call
   /\ CASE o = "ok" ->
+             /\ DOMAIN leaves # {}
              /\ Store(leaves)
              /\ hold' = hold \ {h}
              /\ Log([ev |-> "Add", pass |-> pass, start |-> h.s, n |-> h.n, code |-> "OK"])
@@ -191,6 +207,12 @@ SubmitL(h, leaves, o) ==
              /\ hold' = (hold \ {h}) \cup {[h EXCEPT !.st = "wait"]}
              /\ Log([ev |-> "Add", pass |-> pass, start |-> h.s, n |-> h.n, code |-> "ResourceExhausted"])
              /\ UNCHANGED <<dest, flags, ctl>>
+       [] o = "refused" ->                                    \* EmptyRequestRefused: no leaves, InvalidArgument; not a
+             /\ DOMAIN leaves = {}                             \* fault of the environment, but fatal for the pass
+             /\ hold' = hold \ {h}
+             /\ why' = "err" /\ Terminal
+             /\ Log([ev |-> "Add", pass |-> pass, start |-> h.s, n |-> 0, code |-> "InvalidArgument"])
+             /\ UNCHANGED <<dest, faults, pc, result, pos, root, sth, proved, gen>>
        [] OTHER ->
              /\ Has("fatal") /\ faults' = faults - 1          \* any other code: the pass fails
              /\ hold' = hold \ {h}
@@ -205,7 +227,8 @@ DoFail ==
   /\ pc' = "unwind"
   /\ UNCHANGED <<cfg, dest, pipe, envv, faults, restarts, verified, flags, pass, calls, hist, why, result, pos, root, sth, proved, gen>>
 
-Submit(h) == \E o \in {"ok", "quota", "fatal"} : SubmitL(h, BatchLeaves(h.s, h.n), o)
+Submit(h) == IF h.n = 0 THEN SubmitL(h, BatchLeaves(h.s, 0), "refused")
+             ELSE \E o \in {"ok", "quota", "fatal"} : SubmitL(h, BatchLeaves(h.s, h.n), o)
 
 Wake(h) ==
   /\ pc = "run" /\ h \in hold /\ h.st = "wait"
@@ -229,13 +252,20 @@ NextPass ==
 
 (* ---------- unwinding a failed / cancelled pass ---------- *)
 StragglerSubmitL(h, leaves) ==
-  /\ pc = "unwind" /\ h \in hold /\ h.st = "try" /\ Call
+  /\ pc = "unwind" /\ h \in hold /\ h.st = "try" /\ DOMAIN leaves # {} /\ Call
   /\ Store(leaves)
   /\ hold' = hold \ {h}
   /\ Log([ev |-> "Add", pass |-> pass, start |-> h.s, n |-> h.n, code |-> "OK"])
   /\ UNCHANGED <<cfg, out, bag, envv, faults, restarts, verified, pass, ctl>>
 
-StragglerSubmit(h) == StragglerSubmitL(h, BatchLeaves(h.s, h.n))
+\* an empty request that lands while the pass unwinds is refused as well
+StragglerRefused(h) ==
+  /\ pc = "unwind" /\ h \in hold /\ h.st = "try" /\ h.n = 0 /\ Call
+  /\ hold' = hold \ {h}
+  /\ Log([ev |-> "Add", pass |-> pass, start |-> h.s, n |-> 0, code |-> "InvalidArgument"])
+  /\ UNCHANGED <<cfg, dest, out, bag, envv, faults, restarts, verified, flags, pass, ctl>>
+
+StragglerSubmit(h) == IF h.n = 0 THEN StragglerRefused(h) ELSE StragglerSubmitL(h, BatchLeaves(h.s, h.n))
 
 StragglerFetch(r) ==
   /\ pc = "unwind" /\ r \in out /\ Call
@@ -338,10 +368,14 @@ QuotaAct == [][\A h \in hold : h.st = "wait" =>
 \* a completed one-shot migration has no gaps: every index below the verified STH is there, unparsable ones included
 Complete == (result = "nil" /\ ~cfg.cont) => \A i \in 0..(sth - 1) : dest[i] # None
 VerbatimBad == (result = "nil" /\ ~cfg.cont) => \A i \in cfg.bad : i < sth => dest[i] \in {SrcLeaf(i), OldLeaf(i)}
+\* a pass that reports success leaves no gap (one-shot and continuous alike): the position Run carries into the next
+\* pass - from which it will never look back - has everything below it in the destination.  Short reads, empty pages,
+\* fetch errors and retries may delay a pass or fail it, they never end a range early.
+PosCovered == \A i \in 0..(pos - 1) : dest[i] # None
 \* the integrated prefix never runs ahead of what is stored
 PrefixOK == destSize <= Contig
 
-Safety == Mirror /\ Bounded /\ Gate /\ NoConflict /\ QuotaRetried /\ Complete /\ VerbatimBad /\ PrefixOK
+Safety == Mirror /\ Bounded /\ Gate /\ NoConflict /\ QuotaRetried /\ Complete /\ PosCovered /\ VerbatimBad /\ PrefixOK
 
 (* ---------- liveness ---------- *)
 Fair == WF_vars(Controller) /\ WF_vars(Workers) /\ WF_vars(Submitters) /\ WF_vars(Integrate) /\ WF_vars(Regain)
